@@ -1,8 +1,8 @@
 #!/usr/bin/env python3
 """rcu_selftest.py [name ...]   (no name: all)
 
-Self-test of the rcu checks (C05 / C12 / C13): copies /repo's two rcu headers into a scratch copy of /repo (never touches
-/repo), applies one textual mutation at a time and runs `check.py <property> --tier quick` with VERIF_REPO pointing at the
+Self-test of the rcu checks (C05 / C12 / C13): copies the tree $RCU_SELFTEST_BASE (default /repo; never modified) to a
+scratch directory, applies one textual mutation at a time and runs `check.py <property> --tier quick` with VERIF_REPO pointing at the
 copy.  Expected: every mutant is reported as `VIOLATION ... replay=...` with at least one concrete failing input; the
 harmless rewrites (names starting with `H-`, and `tail-before-link`: readers never read `m_tail`) are `OK` or at worst
 `VIOLATION ... no-failing-input-found` (the stage-A model is the exact program, so a reordering is rejected by the model,
@@ -11,7 +11,8 @@ import os, shutil, subprocess, sys, tempfile, time
 
 HERE = os.path.dirname(os.path.abspath(__file__))
 VERIF = os.path.dirname(HERE)
-SRC = "/repo/gmlc/libguarded/"
+BASE = os.environ.get("RCU_SELFTEST_BASE", "/repo")      # the tree the mutations are applied to (fixed erase expected)
+SRC = BASE + "/gmlc/libguarded/"
 def sub(text, old, new, count=1):
     assert text.count(old) >= 1, "pattern not found: " + old[:60]
     return text.replace(old, new, count)
@@ -43,16 +44,17 @@ ERASE_UNLINK = """        node* oldPrev = iter.m_current->back.load();
         }
 
 """
-ERASE_ZOMBIE = """        auto newZombie = zombie_alloc_trait::allocate(m_zombie_alloc, 1);
-        zombie_alloc_trait::construct(m_zombie_alloc,
-                                      newZombie,
-                                      iter.m_current);
-
-        zombie_list_node* oldZombie = m_zombie_head.load();
+ERASE_PUSH = """        zombie_list_node* oldZombie = m_zombie_head.load();
 
         do {
             newZombie->next = oldZombie;
         } while (!m_zombie_head.compare_exchange_weak(oldZombie, newZombie));
+"""
+ERASE_ALLOC = """        auto newZombie = zombie_alloc_trait::allocate(m_zombie_alloc, 1);
+        zombie_alloc_trait::construct(m_zombie_alloc,
+                                      newZombie,
+                                      iter.m_current);
+
 """
 PF = """        newNode->next.store(oldHead);
         oldHead->back.store(newNode.get());
@@ -83,7 +85,10 @@ MUT = {
   # name: (property, function text -> text)
   "null-destroy": ("C13", m_null),
   "no-scan": ("C05", lambda t: sub(t, SCAN, "")),
-  "zombie-before-unlink": ("C05", lambda t: sub(sub(t, ERASE_ZOMBIE, ""), ERASE_UNLINK, ERASE_ZOMBIE + "\n" + ERASE_UNLINK)),
+  # the zombie record is PUSHED (published on the log) before the node is unlinked
+  "zombie-before-unlink": ("C05", lambda t: sub(sub(t, ERASE_PUSH, ""), ERASE_UNLINK, ERASE_PUSH + "\n" + ERASE_UNLINK)),
+  # the pre-fix erase: the record is allocated only after the node has been unlinked (leaks the node if that allocation throws)
+  "alloc-after-unlink": ("C13", lambda t: sub(sub(t, ERASE_ALLOC, ""), ERASE_PUSH, ERASE_ALLOC + ERASE_PUSH)),
   "owner-before-trunc": ("C05", lambda t: sub(sub(t, "    m_zombie->owner.store(nullptr);\n}", "}"),
                                               "    if (last) {\n        while (n) {\n            node* deadNode",
                                               "    if (!last) {\n        m_zombie->owner.store(nullptr);\n    }\n    if (last) {\n        m_zombie->owner.store(nullptr);\n        while (n) {\n            node* deadNode")),
@@ -159,7 +164,7 @@ def main():
     bad = 0
     try:
         repo = os.path.join(scratch, "repo")
-        subprocess.check_call(["rsync", "-a", "--exclude", "_build", "--exclude", ".git", "/repo/", repo + "/"])
+        subprocess.check_call(["rsync", "-a", "--exclude", "_build", "--exclude", ".git", BASE + "/", repo + "/"])
         dst = os.path.join(repo, "gmlc/libguarded/")
         for name in names:
             prop, fn = MUT[name]
